@@ -122,7 +122,8 @@ theorem incrementLast_form {c large : Bool} {offs offs' : List Int} {inc : Nat}
 
 def isScalarDT (dt : DataType) : Bool :=
   match dt with
-  | .null | .utf8 | .largeUtf8 | .binary | .largeBinary | .fixedSizeBinary _ | .utf8View | .binaryView => true
+  | .null | .utf8 | .largeUtf8 | .binary | .largeBinary | .fixedSizeBinary _ | .utf8View | .binaryView
+  | .dictionary _ _ => true
   | _ => (kindOf dt).isSome
 
 theorem pushScalar_scalarDT (ext : Ext) (b : B) (x : SVal) (b' : B) (dt : DataType) (n : Bool) (md : Metadata)
@@ -135,7 +136,7 @@ theorem pushScalar_scalarDT (ext : Ext) (b : B) (x : SVal) (b' : B) (dt : DataTy
   | bytes p ty v offs data => simp only [Shape] at hs; rw [hs.1]; cases ty <;> rfl
   | fixedSizeBinary p k len v buf cur => simp only [Shape] at hs; rw [hs.1]; rfl
   | bytesView _ ty _ _ _ => simp only [Shape] at hs; rw [hs.1]; cases ty <;> rfl
-  | dictionary _ _ _ _ => simp [Shape] at hs
+  | dictionary _ _ _ _ => simp only [Shape] at hs; obtain ⟨⟨kdt, vdt, rfl⟩, _⟩ := hs; rfl
   | unknownVariant _ => simp [pushScalar, fail] at h
   | list _ _ _ _ _ _ => simp [pushScalar, notSupported, fail] at h
   | fixedSizeList _ _ _ _ _ _ _ => simp [pushScalar, notSupported, fail] at h
